@@ -620,6 +620,23 @@ impl Scenario for C04 {
             let key = if purpose == Purp::Local { fk.local } else { fk.secret };
             b.push(Step::Seal { tok, node: 0, key, purpose, claims, footer: FootSpec::Bytes { bytes: Bytes::hex(b"{\"kid\":1}") }, aad: Bytes::empty(), nonce: None, alias: false, rng, now_ns: now });
         }
+        // honest tokens whose footer, message or assertion is made of the protocol's own vocabulary (key
+        // ids, wrapped keys, token headers of any version, complete or cut short), read by every node
+        for _ in 0..6 {
+            let purpose = if b.rng.bool() { Purp::Local } else { Purp::Public };
+            let tok = b.tok_slot();
+            let rng = b.healthy_rng();
+            let key = if purpose == Purp::Local { fk.local } else { fk.secret };
+            let vkey = if purpose == Purp::Local { fk.local } else { fk.public };
+            let (vt, vc, va) = (b.vocabulary_text(), b.vocabulary_text(), b.vocabulary_text());
+            let claims = if b.rng.chance(1, 3) { ClaimsSpec::Raw { bytes: Bytes::hex(vc.as_bytes()) } } else { ClaimsSpec::Raw { bytes: b.bytes(9) } };
+            let aad = if nodes[0].has_aad() && b.rng.chance(1, 3) { Bytes::hex(va.as_bytes()) } else { Bytes::empty() };
+            b.push(Step::Seal { tok, node: 0, key, purpose, claims, footer: FootSpec::Bytes { bytes: Bytes::hex(vt.as_bytes()) }, aad, nonce: None, alias: false, rng, now_ns: now });
+            for node in 0..nodes.len() {
+                let fk2 = *b.rng.pick(&[crate::backend::FootKind::Bytes, crate::backend::FootKind::Raw, crate::backend::FootKind::Json]);
+                b.push(Step::Deliver { tok, node, key: vkey, purpose: None, faults: vec![], pk: None, fk: Some(fk2), validator: VSpec::None, alias: false, now_ns: now, pair_with: None });
+            }
+        }
         let pw = SecretRef::Password { bytes: Bytes::hex(b"pw") };
         // raw contents of this run's length offered to every parser
         for (node, bk) in nodes.iter().enumerate() {
@@ -634,7 +651,7 @@ impl Scenario for C04 {
                         let purpose = if art == Artifact::TokLocal { Purp::Local } else { Purp::Public };
                         // with and without a footer segment
                         let with_footer = b.rng.bool();
-                        let fbytes = byz_bytes(&mut b, len % 40);
+                        let fbytes = if b.rng.chance(1, 3) { b.vocabulary_text().into_bytes() } else { byz_bytes(&mut b, len % 40) };
                         let text = if with_footer { format!("{text}.{}", b64(&fbytes)) } else { text };
                         b.push(Step::TokInject { tok, family: f, purpose, text });
                         let key = if purpose == Purp::Local { fk.local } else { fk.public };
